@@ -5,7 +5,9 @@ ResourceMonitorAggregator / JobSubmitter._handle_completion+_build_results / Res
 Gallina models, evaluated by coqc.  Search for failing inputs: Python property oracles over impl's own
 outputs (multiset equality with what was written, order, idempotence; true min/max/mean; each job in
 exactly one class)."""
+import glob
 import json
+import logging
 import multiprocessing
 import os
 import shutil
@@ -353,17 +355,36 @@ def run_e2e_submitter_events(chk, tmp):
         out = os.path.join(tmp, f"e2e{k}", "out")
         os.makedirs(out)
         rc = {j["name"]: j["rc"] for j in jobs}
+        # every second submission runs in local mode (`jade submit-jobs --local`): the jobs and the completion handling
+        # then run in one process, which goes on logging events after the runner closed the event log
+        local = k % 2 == 1
+        sc["groups"][0]["local"] = local
+        handed = collections.Counter()      # what the process handed to the event logger, whatever its handlers did with it
+
+        class _Tap(logging.Filter):
+            def filter(self, record):
+                try:
+                    handed[record.msg.name] += 1
+                except Exception:   # noqa
+                    pass
+                return True
+        tap = _Tap()
+        evlog = logging.getLogger("_jade_event")
+        evlog.addFilter(tap)
         try:
             with wd.patched():
                 from jade.jobs.job_submitter import JobSubmitter
                 from jade.loggers import setup_event_logging
                 world = wd.use(wd.World(out, lambda name, attempt: rc.get(name, 0), rng=random.Random(k)))
-                setup_event_logging(os.path.join(out, "submit_jobs_events.log"))      # as `jade submit-jobs` does
-                JobSubmitter.run_submit_jobs(jadeenv.make_config(sc), out)
-                wd.drain(world)
+                setup_event_logging(os.path.join(out, "submit_jobs_events.log"), mode="a")      # as `jade submit-jobs` does
+                JobSubmitter.run_submit_jobs(jadeenv.make_config(sc), out, local=local)
+                if not local:       # a local submission has run to the end when run_submit_jobs returns
+                    wd.drain(world)
         except Exception as e:   # noqa
             chk.tie_broken("e2e submission for the event summary crashed", repr(e)[:300])
             continue
+        finally:
+            evlog.removeFilter(tap)
         logged = collections.Counter()
         f = os.path.join(out, "submit_jobs_events.log")
         if os.path.exists(f):
@@ -378,6 +399,22 @@ def run_e2e_submitter_events(chk, tmp):
             cons[name] = len(json.load(open(fn))) if os.path.exists(fn) else 0
         chk.count(("e2e-events", json.dumps(sc, sort_keys=True)), nontrivial=nj > 1)
         lost = {nm: [c, cons.get(nm, 0)] for nm, c in logged.items() if cons.get(nm, 0) < c}
+        # events handed to the logger by this (submitting) process that reached no event file at all
+        on_disk = collections.Counter()
+        for f2 in glob.glob(os.path.join(out, "*events.log")):
+            for line in open(f2):
+                try:
+                    on_disk[json.loads(line)["name"]] += 1
+                except Exception:   # noqa
+                    pass
+        dropped = {nm: [c, on_disk.get(nm, 0)] for nm, c in handed.items() if on_disk.get(nm, 0) < c}
+        if dropped:
+            bad += 1
+            chk.violation("event-logged-but-never-written",
+                          "events handed to the event logger by the submitting process are in no *events.log file "
+                          "(name: [handed, written]): %s" % dropped,
+                          {"component": "jade.loggers (setup/close_event_logging, log_event) + JobRunner._aggregate_events + JobSubmitter._handle_completion",
+                           "scenario": sc, "local": local, "handed": dict(handed), "written": dict(on_disk)})
         if lost and os.path.isdir(os.path.join(out, "events")):
             bad += 1
             chk.violation("submitter-event-not-in-summary",
